@@ -566,6 +566,7 @@ void RunCase(std::vector<std::string> const &ops)
         bool enq = false;
         int idle = 0;
         bool hsfull = geti(m, "hsfull", 0) != 0;
+        long xcalls = geti(m, "xcalls", 1000000); // X makes at most this many calls (then it is "busy elsewhere")
         auto xInit = [&]() {
 #ifdef SOCKPUPPET_WITH_TLS
           if(x->tls) for(auto const &kvp : reg::ssls) return SSL_is_init_finished(const_cast<SSL *>(kvp.first)) != 0;
@@ -575,7 +576,10 @@ void RunCase(std::vector<std::string> const &ops)
         for(int round = 0; round < 3000 && idle < 300 && !x->failed; ++round) {
           size_t before = x->sentOff + peer.sentOff + peer.got.size() + x->got.size();
           bool futsDone = true;
-          if(x->kind == "async") {
+          if(xcalls <= 0) {
+            // X is silent from now on
+          } else if(x->kind == "async") {
+            --xcalls;
             if(!enq) { XEnq(*x, 0, a); enq = true; }
             for(auto d : x->futDone) futsDone = futsDone && d;
             if(!futsDone || (x->tls && (peer.sentOff < pw || peer.got.size() < r)) || (hsfull && !xInit())) (void)XStep(*x, 0);
@@ -583,6 +587,7 @@ void RunCase(std::vector<std::string> const &ops)
             for(auto d : x->futDone) futsDone = futsDone && d;
             if(futsDone) x->sentOff = a;
           } else {
+            --xcalls;
             if(x->sentOff < a) (void)XSend(*x, 0, a);
             else if(x->tls && ((peer.sentOff < pw || peer.got.size() < r) || (hsfull && !xInit())) && (a == 0 || hsfull) && x->got.empty()) (void)XRecv(*x, 0);
           }
@@ -590,7 +595,7 @@ void RunCase(std::vector<std::string> const &ops)
           PeerHandshake(peer);
           PeerSend(peer, pw);
           PeerRecv(peer, r);
-          if(x->sentOff >= a && peer.sentOff >= pw && peer.got.size() >= r && futsDone && (!hsfull || xInit())) break;
+          if((x->sentOff >= a || xcalls <= 0) && peer.sentOff >= pw && peer.got.size() >= r && (futsDone || xcalls <= 0) && (!hsfull || xInit() || xcalls <= 0)) break;
           if(x->sentOff + peer.sentOff + peer.got.size() + x->got.size() == before) { ++idle; ::usleep(1000); } else idle = 0;
         }
         har::obs("pre done xsent=" + std::to_string(x->sentOff) + " psent=" + std::to_string(peer.sentOff) + " pread=" + std::to_string(peer.got.size()) +
@@ -600,6 +605,10 @@ void RunCase(std::vector<std::string> const &ops)
         PeerKill(peer, m["kind"]);
         ::usleep(2000); // let the FIN / RST travel (kernel, real time)
         Drain();
+      } else if(w[0] == "inject") {
+        // the next send() on X's descriptor fails (the kernel noticed the dead peer on the write path first)
+        auto m = kv(w, 1);
+        vos::push("send", x->fd, "fail", geti(m, "err", 32));
       } else if(w[0] == "after") {
         // X goes on: phases r (receive until the failure is reported) / s (send the rest + `big` more bytes)
         auto m = kv(w, 1);
